@@ -223,7 +223,7 @@ def history_case(case):
                 k = kids[op["other"] % len(kids)]
                 refuses("add-duplicate-child-id", (ValueError,), objs[tuid].add, new_variant(ci, k["id"], k["uid"], "variant", k["arches"]))
             elif bad == "foreign-arch":
-                foreign = [a for a in ARCHES + ["s390x"] if a not in target["arches"]]
+                foreign = [a for a in ARCHES + ["s390x", "src", "src"] if a not in target["arches"]]      # the pseudo-arch every variant MATCHES is not an arch every variant HAS
                 arches = [foreign[op["other"] % len(foreign)]] + ([target["arches"][0]] if op["other"] % 2 else [])
                 first = not forest.children(tuid)
                 refuses("add-foreign-arch" + ("-first-child" if first else ""), (ValueError,), objs[tuid].add,
